@@ -66,7 +66,7 @@ def cases(draw):
 def plan(tier):
     n = 480 if tier == "quick" else 32000
     return [{"kind": "hyp", "name": "images", "strategy": cases(), "examples": n},
-            {"kind": "hyp", "name": "in-place-pairs", "strategy": common.in_place_pairs(cases()), "examples": max(60, n // 10)}]
+            {"kind": "hyp", "name": "in-place-pairs", "strategy": common.in_place_pairs(cases(), stale_index=True), "examples": max(60, n // 10)}]
 
 
 def classify(case):
@@ -109,7 +109,9 @@ def run_case(case):
                         d.setdefault("context", {})["through"] = "index cache"
                         out.append(d)
         finally:
-            if case.get("create_cache"):
+            # in an in-place pair the first product's index stays in place for the second one,
+            # which is opened with use_cache=False and has to ignore it
+            if (case.get("create_cache") and harness.PAIR_INDEX != 0) or harness.PAIR_INDEX == 1:
                 common.drop_user_cache(prod.url, info["names"]["sar_imagery"])
     for iinfo, gname in zip(info["images"], common.group_names(spec)):
         out.extend(model.check_image_group(iinfo, gname, flat, harness.disc))
